@@ -20,6 +20,7 @@ LOGIC = os.environ.get('EMIR_Z3_LOGIC', 'QF_UFBV')
 INT_MODE = os.environ.get('EMIR_INT_MODE', '1') == '1'
 SCRATCH = os.environ.get('EMIR_SMT_DIR', '/verif/.cache/smt')
 
+_SEQ = [0]
 _tok = re.compile(r'\(|\)|[^\s()]+')
 
 
@@ -93,6 +94,9 @@ def run_batch(assumptions, goals, solver='z3', timeout=600, want_model=True, lab
     there; measured 5-20x faster than push/pop on these queries); par = processes in flight."""
     if not goals:
         return []
+    if len(goals) == 1 and goals[0] is sym.FALSE:
+        STATS.add(solver + '/folded', 1, 0.0, 0, label, ['unsat'])
+        return [('unsat', None)]
     if separate and len(goals) > 1:
         if par > 1:
             from concurrent.futures import ThreadPoolExecutor
@@ -141,7 +145,8 @@ def run_batch(assumptions, goals, solver='z3', timeout=600, want_model=True, lab
             script.append('(pop 1)')
     text = '\n'.join(script) + '\n'
     h = hashlib.sha1(text.encode()).hexdigest()[:12]
-    path = os.path.join(SCRATCH, 'q-%s-%d-%s.smt2' % (h, os.getpid(), solver))
+    _SEQ[0] += 1
+    path = os.path.join(SCRATCH, 'q-%s-%d-%d-%s.smt2' % (h, os.getpid(), _SEQ[0], solver))
     with open(path, 'w') as f:
         f.write(text)
     cmd = list(SOLVERS[solver])
